@@ -198,7 +198,7 @@ func genC13(rt *rapid.T) c13Case {
 			how = rapid.SampledFrom([]string{"other-key", "missing", "case-changed", "truncated"}).Draw(rt, "acceptBad")
 			r.Accept = how
 		case "proto":
-			how = rapid.SampledFrom([]string{"unrequested", "requested-case", "empty", "header-only"}).Draw(rt, "protoBad")
+			how = rapid.SampledFrom([]string{"unrequested", "requested-case", "empty", "header-only", "list-with-requested", "requested-then-foreign", "two-lines"}).Draw(rt, "protoBad")
 			r.Proto = how
 		case "ext":
 			how = rapid.SampledFrom(c13ExtKinds).Draw(rt, "extKind")
@@ -258,8 +258,23 @@ func doC13(c c13Case) (conn *websocket.Conn, err error, seen c13Seen, respProto 
 			respProto = "not-asked-for"
 		case "header-only":
 			respProto = "header-only" // named in the caller's header entry (if there is one), never in Subprotocols
+		case "list-with-requested", "requested-then-foreign", "two-lines":
+			// a server selects ONE protocol: a list, or two header lines, is not a selection even if a requested name is in it
+			req := "chat"
+			if len(c.Protos) > 0 {
+				req = c.Protos[0]
+			}
+			switch c.Resp.Proto {
+			case "list-with-requested":
+				respProto = "not-asked-for, " + req
+			case "requested-then-foreign":
+				respProto = req + ", not-asked-for"
+			default:
+				h.Add("Sec-WebSocket-Protocol", "not-asked-for")
+				h.Add("Sec-WebSocket-Protocol", req)
+			}
 		}
-		if respProto != "" {
+		if respProto != "" && c.Resp.Proto != "two-lines" {
 			h.Set("Sec-WebSocket-Protocol", respProto)
 		}
 		if c.Resp.Proto == "empty" {
@@ -390,7 +405,7 @@ func c13Verdict(c c13Case) string {
 	}
 	verdict := "ok"
 	switch r.Proto {
-	case "unrequested":
+	case "unrequested", "list-with-requested", "requested-then-foreign", "two-lines":
 		return "bad"
 	case "header-only":
 		if len(c.Protos) > 0 || len(c.Header.Values("Sec-WebSocket-Protocol")) == 0 {
